@@ -25,6 +25,8 @@ func (o *cOp) run(s *Store, keys [][]byte) {
 		o.got, o.found, o.err = s.Get(keys[o.key])
 	case opRemove:
 		o.removed, o.err = s.Remove(keys[o.key])
+	case opFlush:
+		o.err = s.Flush()
 	}
 }
 
@@ -48,6 +50,8 @@ func (o *cOp) matches(m *model, immutable bool) bool {
 		ok := vrt.And(o.err == nil, o.removed == m.present[o.key])
 		m.set(o.key, false, nil)
 		return ok
+	case opFlush:
+		return o.err == nil
 	}
 	return false
 }
